@@ -6,7 +6,7 @@ import ast
 from ..core import guards
 from ..core import pyfacts as pf
 from ..core.larkfacts import grammar_facts
-from ..core.match import phi_alts, txt
+from ..core.match import canon, phi_alts, txt
 from ..core.source import AnchorMissing
 from .common import ACHAIN, AMPGRAMMAR, ATRANS, ckey, enclosing, fn, returns, stmt_of, where
 
@@ -107,7 +107,7 @@ def c17_1(ctx, ss):
     ctx.floor("C17.1", "get_from_parser sites", len(keys), 5)
     gp, gflow = fn(ss, ATRANS, "get_from_parser")
     r = returns(gp)
-    ok = len(r) == 1 and txt(r[0].value) == "[v.children for v in parser.find_data(key)]"
+    ok = len(r) == 1 and txt(r[0].value) == canon("[v.children for v in parser.find_data(key)]")
     (ctx.holds if ok else ctx.violation)("C17.1", ckey(gp, None, "shape"), where(gp, gp.node),
                                           "get_from_parser returns the child list of every matching node, in document order" if ok else f"get_from_parser returns `{txt(r[0].value) if r else None}`")
 
@@ -328,7 +328,8 @@ def c17_5(ctx, ss):
     if comps:
         c = comps[0]
         g1, g2 = c.generators
-        okl = txt(g1.iter) == "linelist" and [txt(i) for i in g1.ifs] in (["line.name == self.name"], ["self.name == line.name"]) \
+        t1 = txt(g1.target)
+        okl = txt(g1.iter) == "linelist" and [txt(i) for i in g1.ifs] in ([f"{t1}.name == self.name"], [f"self.name == {t1}.name"]) \
             and txt(g2.iter) == f"{txt(g1.target)}.expand_lines(linelist)" and not g2.ifs and txt(c.elt) == txt(g2.target)
     (ctx.holds if okl else ctx.violation)("C17.5", k + " :: by-name", where(ff, comps[0] if comps else ff.node),
                                           "a leaf is replaced by every separately given line of the same name, in file order, each expanded in turn" if okl
@@ -489,7 +490,7 @@ def c17_8(ctx, ss):
     # event_type
     ef_, eflow = fn(ss, ATRANS, "AmpGenTransformer.event_type")
     r = returns(ef_)
-    oke = len(r) == 1 and txt(r[0].value) == f"Tree('event_type', [str(p.children[0]) for p in {ef_.params[1]}])"
+    oke = len(r) == 1 and txt(r[0].value) == canon(f"Tree('event_type', [str(p.children[0]) for p in {ef_.params[1]}])")
     (ctx.holds if oke else ctx.violation)("C17.8", ckey(ef_, None, "event_type"), where(ef_, ef_.node),
                                           "event_type = the label of every particle child, in order" if oke else f"event_type returns `{txt(r[0].value)[:80] if r else None}`")
     # cplx_decay_line: errors from the third columns; whole dictionary returned
@@ -513,7 +514,7 @@ def c17_8(ctx, ss):
     okp = len(sp) == 1 and txt(sp[0].value) in ("particle_from_string_name(mat['name'])",)
     (ctx.holds if okp else ctx.violation)("C17.8", ckey(mf_, None, "particle"), where(mf_, mf_.node), "particle = particle_from_string_name(name)" if okp else "the particle is not looked up from the line's name")
     sd = [x for x in pf.iter_stmts(mf_.node.body) if isinstance(x, ast.Assign) and txt(x.targets[0]) in ("mat['daughters']",)]
-    okd = len(sd) == 1 and txt(sd[0].value) == "[cls.from_matched_line(d) for d in mat['daughters']]" and \
+    okd = len(sd) == 1 and txt(sd[0].value) == canon("[cls.from_matched_line(d) for d in mat['daughters']]") and \
         [(txt(e), pol) for kind, e, pol in guards.path_conditions(mf_.node, sd[0]) if kind == "if"] in ([("mat['daughters']", True)], [])
     (ctx.holds if okd else ctx.violation)("C17.8", ckey(mf_, None, "daughters"), where(mf_, mf_.node),
                                           "every daughter dictionary is converted recursively" if okd else "not every daughter is converted recursively")
